@@ -251,6 +251,7 @@ initforrule	:
 			trailcnt = headcnt = rulelen = 0;
 			current_state_type = STATE_NORMAL;
 			previous_continued_action = continued_action;
+			continued_action = false;
 			in_rule = true;
 
 			new_rule();
